@@ -76,7 +76,7 @@ def rule_one_ok(program, ctx):
         "C06.one_ok",
         "start_client: on every path from the true edge of each `command == \"EVENT\"` test back to the message-loop head "
         "(paths that leave through the connection-closing handlers excluded) exactly one `ws_send(json_dumps([\"OK\", …]))` executes",
-        floor=2,
+        floor=1,
     )
     rid2 = ctx.rule(
         "C06.assigned",
@@ -155,7 +155,7 @@ def rule_true(program, ctx):
         "C06.true",
         "add_event's second return component: SQL - assigned only `False` or `<result>.rowcount == 1` of the event INSERT inside the "
         "transaction, and returned outside it; LMDB - must be a fact read from the store, a constant True cannot tell new from duplicate",
-        floor=2,
+        floor=1,
     )
     for fn, classes in concrete_add_events(program):
         rets = [r for r in walk_no_nested(fn) if isinstance(r, ast.Return) and isinstance(r.value, ast.Tuple) and len(r.value.elts) == 2]
@@ -331,7 +331,44 @@ def rule_reason(program, ctx):
     ctx.bad(finding_func(P, rid, fn, "EVENT branch has no try/else around add_event", text="def start_client(...) :: EVENT"))
 
 
+def rule_dupcheck(program, ctx):
+    rid = ctx.rule(
+        "C06.dupcheck",
+        "LMDB writer: the decision 'already stored -> skip' is `not get_event_data(txn, <event>.id_bytes)` read from the store inside the write "
+        "transaction and nothing else; a process-local memo of written ids goes stale when events are superseded, deleted by NIP-09 or when a commit "
+        "fails, and a later resubmission is acknowledged but silently dropped",
+        floor=1,
+    )
+    run_fn = program.func("nostr_relay.storage.kv:WriterThread.run")
+    tests = [n for n in ast.walk(run_fn) if isinstance(n, ast.If) and "operation == 'add'" in ast.unparse(n.test)]
+    if not tests:
+        ctx.bad(finding_func(P, rid, run_fn, "writer has no 'add' branch", text="def run(...) :: add"))
+        return
+    t = tests[0]
+    parts = t.test.values if isinstance(t.test, ast.BoolOp) and isinstance(t.test.op, ast.And) else [t.test]
+    extra = []
+    dup = False
+    for v in parts:
+        txt = ast.unparse(v)
+        if txt == "operation == 'add'":
+            continue
+        if isinstance(v, ast.UnaryOp) and isinstance(v.op, ast.Not) and isinstance(v.operand, ast.Call) and call_name(v.operand) == "get_event_data" and dotted(v.operand.args[0]) == "txn" and ast.unparse(v.operand.args[1]).endswith(".id_bytes"):
+            dup = True
+            continue
+        extra.append(txt)
+    if extra:
+        ctx.bad(finding_at(P, rid, t, f"the writer's add branch also depends on `{extra[0][:60]}`: events can be skipped although they are not in the store (acknowledged OK=true, never stored)"))
+    elif not dup:
+        ctx.bad(finding_at(P, rid, t, "the writer no longer skips events whose primary record already exists: a resubmission rewrites indexes / re-runs supersede and deletions"))
+    else:
+        ctx.ok(rid, t, "add iff not get_event_data(txn, event.id_bytes)")
+
+
 def run(program, ctx):
+    from . import c07
+
+    c07.rule_sqlregion(program, ctx, prop=P, rid="C06.trace")
+    rule_dupcheck(program, ctx)
     rule_one_ok(program, ctx)
     rule_true(program, ctx)
     rule_broadcast(program, ctx)
@@ -348,6 +385,10 @@ DB = "nostr_relay/storage/db.py"
 KV = "nostr_relay/storage/kv.py"
 
 MUTANTS = [
+    M("c06-insert-own-txn", DB, "                        changed = result.rowcount == 1\n                        await self.post_save(event, connection=conn, changed=changed)\n",
+      "                        changed = result.rowcount == 1\n                async with self.db.begin() as conn:\n                    if do_save:\n                        await self.post_save(event, connection=conn, changed=changed)\n", "C06.trace"),
+    M("c06-writer-memo", KV, "                        if operation == \"add\" and not get_event_data(\n                            txn, args[0].id_bytes\n                        ):",
+      "                        if operation == \"add\" and args[0].id_bytes not in self.written and not get_event_data(\n                            txn, args[0].id_bytes\n                        ):", "C06.dupcheck"),
     M("c06-second-ok-in-else", WEB, "                        reason = \"\" if result else \"duplicate: exists\"\n",
       "                        reason = \"\" if result else \"duplicate: exists\"\n                        await ws_send(json_dumps([\"OK\", eventid, result, reason]))\n", "C06.one_ok", canary=True),
     M("c06-ok-only-on-success", WEB, "                    finally:\n                        if throttle:\n                            await asyncio.sleep(throttle)\n                        await ws_send(json_dumps([\"OK\", eventid, result, reason]))",
